@@ -156,13 +156,19 @@ def stage_b(run, tier, values, kinds):
                 r = ("err",)
             else:
                 r = ("crash", b[1])
-            terms.append(f"res_eqb (convert_value O {ck} {vals.cjval(v)}) {vals.cresult(r)}")
-            meta.append({"route": "property_from_data", "kind": label, "value": v, "impl": r, "ckind": ck})
+            mterm = f"convert_value O {ck} {vals.cjval(v)}"
+            if "enum" in sch and None in sch["enum"] and type(prop).__name__ == "UnionProperty":
+                # EnumProperty.build rewrites a nullable enum into oneOf[null, enum copy WITH the same default]: the inner enum
+                # validates the default first, then the union converts it
+                ick = vals.ckind_of(prop.inner_properties[1])
+                mterm = f"match convert_value O {ick} {vals.cjval(v)} with Err => Err | _ => {mterm} end"
+            terms.append(f"res_eqb ({mterm}) {vals.cresult(r)}")
+            meta.append({"route": "property_from_data", "kind": label, "value": v, "impl": r, "ckind": ck, "mterm": mterm})
             run.note_case({"route": "property_from_data", "kind": label, "value": repr(v)}, nontrivial=v is not None, kind="B:pfd:" + label)
     bad = run_cases(hdr, terms)
     for i in bad[:12]:
         m = meta[i]
-        model = coq_eval(hdr, f"convert_value O {m['ckind']} {vals.cjval(m['value'])}")
+        model = coq_eval(hdr, m.get("mterm") or f"convert_value O {m['ckind']} {vals.cjval(m['value'])}")
         run.violation("correspondence", {"route": m["route"], "kind": m["kind"], "input": m["value"], "impl": str(m["impl"]), "model": model[-400:],
                                          "note": "convert_value of the real property class disagrees with Values.convert_value"})
     # the oracle laws the theorems take as hypotheses / the model takes as given, sampled against the real functions
@@ -512,7 +518,7 @@ def classify_c(run, fails, hdr):
         if code is None:
             fid = None
         elif code >= 100:
-            fid = None if code == 100 else CLASS_IDS[code - 100] if code - 100 in (1, 5, 8) else "union_first_match"
+            fid = None if code == 100 else CLASS_IDS[code - 100] if code - 100 in (1, 5, 7, 8) else "union_first_match"
         elif code == 50:
             fid = "enum_default_dq"
         elif code == 51:
